@@ -15,7 +15,9 @@ META = dict(
                       "valid templates (secp112r1 ssleay / pkcs8 / SPKI / raw / signature) with: "
                       "any one position replaced by a symbolic byte, any truncation, any "
                       "truncation followed by one symbolic byte, one symbolic byte inserted "
-                      "anywhere, any one byte deleted; PEM: symbolic text up to 6 bytes with a "
+                      "anywhere, any one byte deleted; any node of the encoding's ASN.1 tree "
+                      "replaced by every byte string of length 0..4 with the enclosing lengths "
+                      "recomputed; PEM: symbolic text up to 6 bytes with a "
                       "nondeterministic base64 stub",
                 thorough="fully symbolic length 0..8; templates also on NIST256p and secp112r2"),
     stubs=ecstub.STUBS + [
@@ -202,6 +204,93 @@ def edited(entry, cname, ti, mode):
     return _run(entry, cname, mk, mode)
 
 
+# -- hole templates: any node of the ASN.1 tree replaced by arbitrary bytes, with the
+#    enclosing lengths recomputed (so the outer structure stays consistent) -------------
+
+def _tlv(tag, body):
+    n = len(body)
+    if n < 0x80:
+        hdr = bytes([tag, n])
+    else:
+        lb = n.to_bytes((n.bit_length() + 7) // 8, "big")
+        hdr = bytes([tag, 0x80 | len(lb)]) + lb
+    return hdr + body
+
+
+def _trees(cname):
+    """ASN.1 trees (tag, children|bytes) of the valid encodings, from the native library's
+    building blocks only for leaf values (OIDs, key bytes)"""
+    nat = loader.load_native()
+    cv = getattr(nat.curves, cname)
+    sk = nat.keys.SigningKey.from_secret_exponent(0x1234567 % (cv.order - 1) + 1, cv)
+    vk = sk.verifying_key
+    oid_pk = bytes(nat.util.encoded_oid_ecPublicKey)
+    oid_cv = bytes(cv.encoded_oid)
+    leaf = lambda b: ("leaf", bytes(b))
+    point = vk.to_string("uncompressed")
+    bitstr = leaf(_tlv(0x03, b"\x00" + point))
+    spki = (0x30, [(0x30, [leaf(oid_pk), leaf(oid_cv)]), bitstr])
+    ecpriv = (0x30, [leaf(_tlv(0x02, b"\x01")), leaf(_tlv(0x04, sk.to_string())),
+                     (0xA0, [leaf(oid_cv)]), (0xA1, [bitstr])])
+    pkcs8 = (0x30, [leaf(_tlv(0x02, b"\x00")), (0x30, [leaf(oid_pk), leaf(oid_cv)]),
+                    (0x04, [ecpriv])])
+    r, s_ = nat.util.sigdecode_string(sk.sign_digest(b"\x01" * cv.baselen, k=0x765432 % (cv.order - 1) + 1), cv.order)
+    sig = (0x30, [leaf(bytes(nat.der.encode_integer(r))), leaf(bytes(nat.der.encode_integer(s_)))])
+    return {"vk_from_der": [spki], "ecdh_pub_der": [spki], "sk_from_der": [ecpriv, pkcs8],
+            "ecdh_priv_der": [ecpriv, pkcs8], "sigdecode_der": [sig], "verify_der": [sig]}
+
+
+def _node_paths(tree, prefix=()):
+    out = [prefix]
+    if tree[0] != "leaf":
+        for i, ch in enumerate(tree[1]):
+            out.extend(_node_paths(ch, prefix + (i,)))
+    return out
+
+
+def _encode_with_hole(tree, path, hole):
+    """encode tree; the node at `path` is replaced by `hole` (bytes/SBytes)"""
+    if path == ():
+        return hole
+    if tree[0] == "leaf":
+        return tree[1]
+    parts = []
+    for i, ch in enumerate(tree[1]):
+        if path and path[0] == i:
+            parts.append(_encode_with_hole(ch, path[1:], hole))
+        else:
+            parts.append(_encode_with_hole(ch, None, hole) if False else _enc(ch))
+    body = b""
+    for p_ in parts:
+        body = body + p_ if len(p_) else body
+    n = len(body)
+    if n < 0x80:
+        hdr = bytes([tree[0], n])
+    else:
+        lb = n.to_bytes((n.bit_length() + 7) // 8, "big")
+        hdr = bytes([tree[0], 0x80 | len(lb)]) + lb
+    return hdr + body
+
+
+def _enc(tree):
+    if tree[0] == "leaf":
+        return tree[1]
+    return _tlv(tree[0], b"".join(_enc(c) for c in tree[1]))
+
+
+def hole(entry, cname, ti, L):
+    tree = _trees(cname)[entry][ti]
+    paths = _node_paths(tree)
+
+    def mk():
+        c = core.ctx()
+        pi = c.nondet(len(paths), "node")
+        x = SBytes.sym("x", L) if L else b""
+        return _encode_with_hole(tree, paths[pi], x)
+
+    return _run(entry, cname, mk, "hole%d" % L)
+
+
 def jobs(tier, seed):
     Lmax = 6 if tier == "quick" else 8
     js = []
@@ -221,6 +310,12 @@ def jobs(tier, seed):
                 for mode in modes:
                     js.append(Job("tmpl/%s/%s/%d/%s" % (cname, e, ti, mode), "harness.c10:edited",
                                   entry=e, cname=cname, ti=ti, mode=mode))
+        for e, n_t in (("vk_from_der", 1), ("ecdh_pub_der", 1), ("sk_from_der", 2),
+                       ("ecdh_priv_der", 2), ("sigdecode_der", 1), ("verify_der", 1)):
+            for ti in range(n_t):
+                for L in range(0, (5 if tier == "quick" else 7)):
+                    js.append(Job("hole/%s/%s/%d/L%d" % (cname, e, ti, L), "harness.c10:hole",
+                                  entry=e, cname=cname, ti=ti, L=L))
     return js
 
 
